@@ -352,6 +352,24 @@ theorem batch_heap_refines_batcher {α : Type} (source : String) (batchSize : Na
     (Batch.run source batchSize ls).out.map (Batch.run source batchSize ls).read = Batcher.run batchSize ls :=
   run_refines source batchSize ls
 
+/-- …so C01's `batches_concat` holds for the heap-explicit loop: read through the heap after the loop,
+    the batches are a partition of the lines into non-empty runs with true 1-based line numbers. -/
+theorem batch_heap_batches_concat {α : Type} (source : String) (batchSize : Nat) (ls : List (α × Bool)) :
+    let bs := (Batch.run source batchSize ls).out.map (Batch.run source batchSize ls).read
+    bs.flatMap Batcher.lineNumbers = (ls.map (·.1)).zipIdx 1 ∧ (∀ b ∈ bs, b.lines ≠ []) ∧
+    bs.flatMap (·.lines) = ls.map (·.1) := by
+  intro bs
+  have hr : bs = Batcher.run batchSize ls := run_refines source batchSize ls
+  have hinv := Batcher.inv_fold batchSize ls (Batcher.inv_init (α := α))
+  simp only [List.nil_append] at hinv
+  have hf := Batcher.finish_spec hinv
+  rw [hr]
+  exact ⟨hf.1, hf.2, flat_of_numbers hf.1⟩
+
+example : ((Batch.run "f" 2 [((1 : Nat), true), (2, false), (3, false), (4, false)]).out.map
+    (Batch.run "f" 2 [((1 : Nat), true), (2, false), (3, false), (4, false)]).read).map (fun b => (b.lines, b.start)) =
+    [([1], 1), ([2, 3], 2), ([4], 4)] := by decide
+
 /-- The batcher goroutine of a followed file ends when the follow reader does: for every stream, every
     shape of the `Read` calls (incl. failing ones), every timer behaviour, every batch size and every
     scanner buffer size ≥ 1 the loop reaches "channel closed" – and no `Scan()` of any of its trips
